@@ -10,8 +10,12 @@ pub mod c06;
 pub mod c07;
 pub mod c08;
 pub mod c09;
+pub mod c10;
 pub mod c11;
+pub mod c23;
 pub mod c28;
+pub mod c29;
+pub mod exh;
 
 pub fn all() -> Vec<Prop> {
     vec![
@@ -24,8 +28,11 @@ pub fn all() -> Vec<Prop> {
         c07::prop(),
         c08::prop(),
         c09::prop(),
+        c10::prop(),
         c11::prop(),
+        c23::prop(),
         c28::prop(),
+        c29::prop(),
     ]
 }
 
